@@ -715,6 +715,9 @@ def judge(c):
     return _judge_plain(c)
 
 
+IMPLEMENTED_OPSET = 13
+
+
 def judge_load(c):
     """C18: NewModelFromBytes returns a model or an error, never panics; opset rule via the model"""
     impl, model = c["impl"], c.get("model") or {}
@@ -733,6 +736,10 @@ def judge_load(c):
         verdict, what = "violates", "bytes that are not a protobuf message were loaded"
     elif ms == "error" and model.get("errkind") == "unsupportedOpset" and not (impl["status"] == "error" and impl.get("errkind") == "unsupportedOpset"):
         verdict, what = "violates", f"highest imported opset is not implemented but loading gives {impl['status']}/{impl.get('errkind')}"
+    elif impl["status"] == "ok" and isinstance(c["p"].get("parsed"), dict) and max([0] + [int(v) for v in (c["p"]["parsed"].get("opsets") or [])]) != IMPLEMENTED_OPSET:
+        # the opset the library implements is PINNED here (13), not taken from the regenerated table: a model
+        # whose highest imported version is anything else (none at all, 0, negative, 12, 14) must be refused
+        verdict, what = "violates", f"highest imported opset is {max([0] + [int(v) for v in (c['p']['parsed'].get('opsets') or [])])} (imports {c['p']['parsed'].get('opsets')}), not the implemented {IMPLEMENTED_OPSET}, but the model loads"
     elif ms == "ok" and impl["status"] != "ok":
         verdict, what = "violates", f"loadable model refused: {impl.get('msg','')[:100]}"
     tag = None
